@@ -126,13 +126,25 @@ pub fn gen_builtin(r: &mut Rng) -> (MProgram, Vec<MPred>) {
     let nst = 2 + r.below(4);
     let mut sigs: Vec<(String, usize)> = vec![];
     for i in 0..nst {
-        sigs.push((format!("S{}", i), if r.chance(35) { 1 } else { 0 }));
+        // some structs declare a lifetime and/or a const parameter before their type parameters (`LtS1<'a, V0>`)
+        let lead = match r.below(8) {
+            0 => "Lt",
+            1 => "Cn",
+            2 => "Lc",
+            _ => "",
+        };
+        sigs.push((format!("{}S{}", lead, i), if r.chance(40) { 1 + r.below(2) } else { 0 }));
     }
     for i in 0..nst {
         let (name, ar) = sigs[i].clone();
         let nf = r.below(4);
         // fields may mention earlier structs only (no infinitely sized types needed here)
-        let fields: Vec<MTy> = (0..nf).map(|_| gen_bty(r, &sigs[..i], ar, 2)).collect();
+        let mut fields: Vec<MTy> = (0..nf).map(|_| gen_bty(r, &sigs[..i], ar, 2)).collect();
+        if ar > 0 && r.chance(55) {
+            // the tail is one of the struct's own parameters: sizedness depends on the argument
+            fields.push(MTy::Var(r.below(ar)));
+        }
+        let nf = fields.len();
         let variants = if r.chance(25) {
             let k = r.below(nf + 1);
             vec![k, nf - k]
@@ -175,7 +187,54 @@ pub fn gen_builtin(r: &mut Rng) -> (MProgram, Vec<MPred>) {
         let tr = r.pick(&p.traits).name.clone();
         goals.push(MPred::new(&tr, vec![t]));
     }
+    // Sized along "tail chains": tuples / structs whose last element or field is again a tuple / struct ..., ending in
+    // a sized or an unsized leaf
+    if p.traits.iter().any(|t| t.name == "Sized") {
+        for _ in 0..5 {
+            let depth = 1 + r.below(4);
+            let t = gen_tail_chain(r, &p, depth);
+            goals.push(MPred::new("Sized", vec![t]));
+        }
+    }
     (p, goals)
+}
+
+fn gen_tail_chain(r: &mut Rng, p: &MProgram, depth: usize) -> MTy {
+    let sized_leaf = |r: &mut Rng| match r.below(4) {
+        0 => MTy::app("@ref", vec![MTy::nullary("@str")]),
+        1 => MTy::app("@array", vec![MTy::nullary("u8")]),
+        _ => MTy::nullary(*r.pick(SCALARS)),
+    };
+    if depth == 0 {
+        return match r.below(6) {
+            0 => MTy::nullary("@str"),
+            1 => MTy::app("@slice", vec![MTy::nullary("u8")]),
+            2 => MTy::nullary("@dyn:Obj"),
+            _ => sized_leaf(r),
+        };
+    }
+    let with_tail: Vec<&MStruct> = p.structs.iter().filter(|s| s.variants.is_empty() && matches!(s.fields.last(), Some(MTy::Var(_)))).collect();
+    if !with_tail.is_empty() && r.chance(50) {
+        let st = *r.pick(&with_tail);
+        let tail_param = match st.fields.last() {
+            Some(MTy::Var(i)) => *i,
+            _ => 0,
+        };
+        let args = (0..st.nparams).map(|i| if i == tail_param { gen_tail_chain(r, p, depth - 1) } else { sized_leaf(r) }).collect();
+        return MTy::app(&st.name, args);
+    }
+    let n = r.below(3);
+    let mut elems: Vec<MTy> = (0..n).map(|_| sized_leaf(r)).collect();
+    elems.push(gen_tail_chain(r, p, depth - 1));
+    MTy::app("@tuple", elems)
+}
+
+/// Rough count of the nodes chalk's size limit sees (a `dyn` type carries a binder with its bounds inside).
+fn chalk_nodes(t: &MTy) -> usize {
+    match t {
+        MTy::App(n, a) => (if n.starts_with("@dyn:") { 4 } else { 1 }) + a.iter().map(chalk_nodes).sum::<usize>(),
+        _ => 1,
+    }
 }
 
 pub fn builtin_program_text(p: &MProgram) -> String {
@@ -259,7 +318,7 @@ pub fn run(ctx: &Ctx, out: &mut CaseOut) {
                     (MAnswer::None, Tri::True) => Some("does not hold according to the solver but holds by the structural rules + explicit impls"),
                     (MAnswer::Unique(..), _) | (MAnswer::None, _) => None,
                     (_, Tri::Unknown) => None,
-                    (_, _) if cleans[gi] => Some("ambiguous answer on a closed in-limit goal"),
+                    (_, _) if cleans[gi] && chalk_nodes(&g.args[0]) <= 7 => Some("ambiguous answer on a closed in-limit goal"),
                     _ => None,
                 };
                 if let Some(why) = bad {
